@@ -65,7 +65,7 @@ nothing, except a coprocess's pipe ends and — with `shopt -s lastpipe` — the
 pipeline, which is not a subshell); and the process-wide state is unchanged too when the sequence
 contains no `umask`/`ulimit`. -/
 theorem subshell_preserves_parent_partial (root : List Str) (c : Ctx) (ms : List Mut) (p : ShellPart) (w : World) :
-    (exec root c ms p w).shell = parentOwn root c ms p ∧
+    (exec root c ms p w).shell = parentOwn root c ms p w ∧
     ((∀ m ∈ ms, m.touchesWorld = false) → (exec root c ms p w).world = w) :=
   ⟨exec_shell root c ms p w, exec_world root c ms p w⟩
 
@@ -85,8 +85,11 @@ example :
 /-- In every context but a pipeline ending in a mutator, the parent's own activity is `prepare`
 (nothing, or the coprocess pipe ends): there the parent's `Shell` value is simply unchanged. -/
 theorem subshell_preserves_parent_value (root : List Str) (c : Ctx) (ms : List Mut) (p : ShellPart) (w : World)
-    (hc : c ≠ .pl) : (exec root c ms p w).shell = prepare c p := by
-  rw [exec_shell]; cases c <;> simp_all [parentOwn]
+    (hc : c.parentActs = false) : (exec root c ms p w).shell = prepare c p := by
+  rw [exec_shell]
+  cases c
+  case bgw s f => cases f <;> simp_all [parentOwn, ownErrexit, Ctx.parentActs, prepare]
+  all_goals simp_all [parentOwn, Ctx.parentActs]
 
 /-! ## pipelines and `lastpipe` -/
 
@@ -151,7 +154,7 @@ pipeline in which a stage ends in a Rust `Err` (`cd /nonexistent | true; echo af
 the rest of the parent's line runs.  (For a pipeline whose last command is the parent's own see
 `pipeline_line_ends_only_by_own_exit`.) -/
 theorem parent_continues (root : List Str) (c : Ctx) (ms : List Mut) (p : ShellPart) (w : World)
-    (hc : c ≠ .pl) : (exec root c ms p w).aborted = false :=
+    (hc : c.parentActs = false) : (exec root c ms p w).aborted = false :=
   exec_aborted root c ms p w hc
 
 /-- **A failing stage fails alone.**  `m1 | … | true` with any stages whatsoever (failing `cd`,
@@ -178,12 +181,12 @@ theorem pipeline_line_ends_only_by_own_exit (root : List Str) (init : List Mut) 
 /-- **Nothing else flows back.**  If no `umask`/`ulimit` runs in the subshell (and, for a pipeline
 whose last command is the parent's own, that command is not an `exit`), then what the parent
 observes afterwards — its `Shell` value, the process, `$?`, the text received, and that its line goes
-on — is determined by its own activity together with the subshell's status and output. -/
+on — is determined by its own activity (its own last pipeline stage, its own `set -e`) together with the subshell's status and output. -/
 theorem nothing_else_flows_back_partial (root : List Str) (c : Ctx) (ms : List Mut) (p : ShellPart) (w : World)
     (hw : ∀ m ∈ ms, m.touchesWorld = false)
-    (he : c = .pl → (exec root c ms p w).aborted = false) :
+    (he : c.parentActs = true → (exec root c ms p w).aborted = false) :
     exec root c ms p w =
-      { shell := parentOwn root c ms p, world := w, status := (exec root c ms p w).status,
+      { shell := parentOwn root c ms p w, world := w, status := (exec root c ms p w).status,
         out := (exec root c ms p w).out, aborted := false } :=
   exec_eq root c ms p w hw he
 
@@ -191,8 +194,9 @@ theorem nothing_else_flows_back_partial (root : List Str) (c : Ctx) (ms : List M
 are indistinguishable to the parent. -/
 theorem only_status_and_output_flow_back (root : List Str) (c : Ctx) (ms₁ ms₂ : List Mut) (p : ShellPart) (w : World)
     (h₁ : ∀ m ∈ ms₁, m.touchesWorld = false) (h₂ : ∀ m ∈ ms₂, m.touchesWorld = false)
-    (e₁ : c = .pl → (exec root c ms₁ p w).aborted = false) (e₂ : c = .pl → (exec root c ms₂ p w).aborted = false)
-    (ho : parentOwn root c ms₁ p = parentOwn root c ms₂ p)
+    (e₁ : c.parentActs = true → (exec root c ms₁ p w).aborted = false)
+    (e₂ : c.parentActs = true → (exec root c ms₂ p w).aborted = false)
+    (ho : parentOwn root c ms₁ p w = parentOwn root c ms₂ p w)
     (hs : (exec root c ms₁ p w).status = (exec root c ms₂ p w).status)
     (hout : (exec root c ms₁ p w).out = (exec root c ms₂ p w).out) :
     exec root c ms₁ p w = exec root c ms₂ p w := by
@@ -206,7 +210,7 @@ example :
 
 /-- An `exit` in a subshell never ends the parent, in any context (the parent's line goes on). -/
 theorem exit_stays_in_subshell (root : List Str) (c : Ctx) (n : Nat) (p : ShellPart) (w : World)
-    (hc : c ≠ .pl) :
+    (hc : c.parentActs = false) :
     (exec root c [.exit n] p w).aborted = false ∧ (exec root c [.exit n] p w).shell = prepare c p :=
   ⟨exec_aborted root c _ p w hc, subshell_preserves_parent_value root c _ p w hc⟩
 
@@ -225,7 +229,7 @@ last command is the parent's own, for every body of any length containing any `e
 line goes on, its `Shell` value is what it was, and — with no `umask`/`ulimit` in the body — the
 whole parent is determined by the status and output that came back. -/
 theorem subshell_exec_stays_in_subshell (root : List Str) (c : Ctx) (ms : List Mut) (p : ShellPart) (w : World)
-    (hc : c ≠ .pl) :
+    (hc : c.parentActs = false) :
     (exec root c ms p w).aborted = false ∧ (exec root c ms p w).shell = prepare c p :=
   ⟨exec_aborted root c ms p w hc, subshell_preserves_parent_value root c ms p w hc⟩
 
@@ -245,7 +249,7 @@ theorem own_exec_replaces_the_shell (root : List Str) (init : List Mut) (k : Str
   rw [pl_aborted]; simp only [h, execReplaces, Bool.true_or, Bool.true_and, Bool.or_eq_true, bne_iff_ne, ne_eq]
   exact Or.inr hk
 
-example : (∀ c ∈ Ctx.all, c ≠ .pl →
+example : (∀ c ∈ Ctx.all, c.parentActs = false →
       (exec [] c [.execCmd "echo".toList, .assign "v1".toList "q".toList] (defaultShell []) ⟨18, 1024⟩).aborted = false) ∧
     (exec [] .paren [.execCmd "echo".toList, .echo "y".toList, .exit 3] (defaultShell []) ⟨18, 1024⟩).out = [['x'], ['y']] ∧
     (exec [] .pl [.execCmd "true".toList, .true_] (defaultShell []) ⟨18, 1024⟩).aborted = false ∧
@@ -256,24 +260,51 @@ example : (∀ c ∈ Ctx.all, c ≠ .pl →
 /-- how the body of a background job ends, as the job table records it (`Job::wait` hands out the
 task's whole `ExecutionResult`, control-flow request included) -/
 def jobEnd (root : List Str) (f : Frame) (ms : List Mut) (p : ShellPart) (w : World) : JobResult :=
-  let r := runMuts root ms { sh := cloneWith fresh (frameShell root f p), world := w, inFn := (f = .func) }
-  { status := r.status, flow := r.flow }
+  jobResult (bgwRun fresh root f ms p w)
 
 /-- **What comes back through `wait`, `wait %N`, `wait %1 %2` is at most a status.**  Whatever the
 collected jobs ended with — an `exit`, `break`, `continue`, `return`, an abort under `set -e` — the
 builtin hands the parent's interpreter no control-flow request. -/
 theorem wait_returns_at_most_a_status (s : Sync) (jobs : List JobResult) :
-    (waitResult s jobs).flow = Flow.normal := rfl
+    (waitResult s jobs).flow = Flow.normal ∧
+    (waitResult s jobs).status = (match s with
+      | .every => 0
+      | _ => ((jobs.getLast?).map (·.status)).getD 0) := by
+  cases s <;> exact ⟨rfl, rfl⟩
 
 /-- **A background job's control flow stays in the job.**  For every synchronisation, every frame
 of the parent (top level, loop body, function body, `set -e`), every job body of any length and
-every parent state: after the job has been collected the parent's `Shell` value is unchanged, it has
-received a status and nothing else, and its line / loop / function goes on. -/
+every parent state: after the job has been collected the parent has received a status — 0 from a
+bare `wait`, the last named job's exit code from `wait %N …` — and nothing else.  Its line / loop /
+function goes on and its `Shell` value is unchanged, with one exception that is the parent's own
+doing: under its own `set -e` a non-zero status from `wait %N` stops it there (as in bash). -/
 theorem background_control_flow_stays_in_job (root : List Str) (s : Sync) (f : Frame) (ms : List Mut)
     (p : ShellPart) (w : World) :
-    (exec root (.bgw s f) ms p w).shell = p ∧ (exec root (.bgw s f) ms p w).status = 0 ∧
-    (exec root (.bgw s f) ms p w).aborted = false :=
-  exec_bgw root s f ms p w
+    (exec root (.bgw s f) ms p w).status = (bgwWait fresh root s f ms p w).status ∧
+    (exec root (.bgw s f) ms p w).aborted = ownErrexit f (bgwWait fresh root s f ms p w) ∧
+    (f ≠ .errexit → (exec root (.bgw s f) ms p w).aborted = false ∧ (exec root (.bgw s f) ms p w).shell = p) ∧
+    ((exec root (.bgw s f) ms p w).status = 0 →
+      (exec root (.bgw s f) ms p w).aborted = false ∧ (exec root (.bgw s f) ms p w).shell = p) := by
+  obtain ⟨h1, h2, h3⟩ := exec_bgw root s f ms p w
+  refine ⟨h1, h2, ?_, ?_⟩
+  · intro hf
+    have := ownErrexit_other f (bgwWait fresh root s f ms p w) hf
+    rw [h2, h3, this]; simp
+  · intro h0
+    rw [h1] at h0
+    have : ownErrexit f (bgwWait fresh root s f ms p w) = false := by simp [ownErrexit, h0]
+    rw [h2, h3, this]; simp
+
+/-- the status that comes back is the job's: `{ …; exit 7; } & wait %1` gives 7, a bare `wait` 0,
+`wait %1 %2` the second job's 5; and under the parent's own `set -e` a failed job stops the parent -/
+example :
+    (exec [] (.bgw .spec .plain) [.assign "v1".toList "q".toList, .exit 7] (defaultShell []) ⟨18, 1024⟩).status = 7 ∧
+    (exec [] (.bgw .every .plain) [.exit 7] (defaultShell []) ⟨18, 1024⟩).status = 0 ∧
+    (exec [] (.bgw .spec2 .func) [.return_ 4] (defaultShell []) ⟨18, 1024⟩).status = 5 ∧
+    (exec [] (.bgw .spec .func) [.return_ 4] (defaultShell []) ⟨18, 1024⟩).status = 4 ∧
+    (exec [] (.bgw .spec .errexit) [.false_] (defaultShell []) ⟨18, 1024⟩).aborted = true ∧
+    (exec [] (.bgw .spec .errexit) [.break_] (defaultShell []) ⟨18, 1024⟩).aborted = false ∧
+    (exec [] (.bgw .every .errexit) [.false_] (defaultShell []) ⟨18, 1024⟩).aborted = false := by decide
 
 /-- non-vacuity: job bodies do end with every kind of request (and change their clone), in the
 frames where the seeded regression would have made the parent act on it -/
@@ -282,28 +313,27 @@ example :
     (jobEnd [] .loop [.break_] (defaultShell []) ⟨18, 1024⟩).flow = .brk ∧
     (jobEnd [] .loop [.echo "x".toList, .continue_] (defaultShell []) ⟨18, 1024⟩).flow = .cont ∧
     (jobEnd [] .func [.return_ 4] (defaultShell []) ⟨18, 1024⟩) = ⟨4, .ret⟩ ∧
-    (jobEnd [] .plain [.return_ 4] (defaultShell []) ⟨18, 1024⟩) = ⟨2, .normal⟩ ∧
+    (jobEnd [] .plain [.return_ 4] (defaultShell []) ⟨18, 1024⟩) = ⟨0, .normal⟩ ∧
     (jobEnd [] .errexit [.false_, .assign "v1".toList "q".toList] (defaultShell []) ⟨18, 1024⟩) = ⟨1, .exit⟩ ∧
     (jobEnd [] .plain [.seto "errexit".toList true, .cd "nx".toList, .true_] (defaultShell []) ⟨18, 1024⟩) = ⟨1, .exit⟩ ∧
-    (∀ c ∈ Ctx.all, c ≠ .pl →
+    (∀ c ∈ Ctx.all, c.parentActs = false →
       (exec [] c [.assign "v1".toList "q".toList, .exit 7] (defaultShell []) ⟨18, 1024⟩).aborted = false) := by
   decide
 
 /-! ## the surrounding execution context does not matter -/
 
 /-- **The parent's outcome does not depend on where it stands.**  The frame (top level, loop body,
-function body, `set -e`) changes how the job's body runs — `return` is meaningful only in a function,
-a failing command ends the job only under `set -e` — yet for every synchronisation, any two frames,
-every body and every parent state, the parent ends with the same `Shell` value, the same status and
-the same "line goes on". -/
+function body) changes how the job's body runs — `return` is meaningful only in a function — and so
+the status that comes back; yet for every synchronisation, any two such frames, every body and every
+parent state, the parent ends with the same `Shell` value and its line goes on.  (Under its own
+`set -e` the parent may stop on the status: `background_control_flow_stays_in_job`.) -/
 theorem parent_outcome_independent_of_frame (root : List Str) (s : Sync) (f f' : Frame) (ms : List Mut)
-    (p : ShellPart) (w : World) :
+    (p : ShellPart) (w : World) (hf : f ≠ .errexit) (hf' : f' ≠ .errexit) :
     (exec root (.bgw s f) ms p w).shell = (exec root (.bgw s f') ms p w).shell ∧
-    (exec root (.bgw s f) ms p w).status = (exec root (.bgw s f') ms p w).status ∧
     (exec root (.bgw s f) ms p w).aborted = (exec root (.bgw s f') ms p w).aborted := by
-  have h := exec_bgw root s f ms p w
-  have h' := exec_bgw root s f' ms p w
-  exact ⟨h.1.trans h'.1.symm, h.2.1.trans h'.2.1.symm, h.2.2.trans h'.2.2.symm⟩
+  have h := (background_control_flow_stays_in_job root s f ms p w).2.2.1 hf
+  have h' := (background_control_flow_stays_in_job root s f' ms p w).2.2.1 hf'
+  exact ⟨h.2.trans h'.2.symm, h.1.trans h'.1.symm⟩
 
 /-- the frames do differ for the job itself: the same body ends differently in them -/
 example :
@@ -317,7 +347,7 @@ example :
 run of the same case, another construct — sees exactly the parent that the first one saw, up to the
 parent's own preparation (coprocess pipe ends). -/
 theorem second_run_sees_the_same_parent (root : List Str) (c₁ c₂ : Ctx) (ms₁ ms₂ : List Mut)
-    (p : ShellPart) (w w' : World) (hc : c₁ ≠ .pl) :
+    (p : ShellPart) (w w' : World) (hc : c₁.parentActs = false) :
     exec root c₂ ms₂ (exec root c₁ ms₁ p w).shell w' = exec root c₂ ms₂ (prepare c₁ p) w' := by
   rw [subshell_preserves_parent_value root c₁ ms₁ p w hc]
 
